@@ -379,7 +379,48 @@ def run_concurrent(case):
     for name, runs in (('callback', real.cb_runs), ('cleanup', real.cl_runs)):
         if any(n > 1 for n in runs.values()):
             return ((f'conc:{name}-ran-twice', f'{runs}'), info)
+    # a done callback registered before the threads started runs exactly
+    # once when done was announced (all threads have finished here, so every
+    # announce_done() has returned)
+    ev = getattr(real.c, '_done_event', None)
+    if ev is not None and ev.is_set():
+        for (tix, j, op, k, r) in log:
+            if tix == -1 and op == 'b' and real.cb_runs.get(k, 0) != 1:
+                return (('conc:callback-never-ran',
+                         f'done announced, callback {k} registered before '
+                         f'ran {real.cb_runs.get(k, 0)}x; threads '
+                         f'{case["threads"]} prefix {case.get("prefix")}'),
+                        info)
     return None, info
+
+
+# start states of the systematic line-preemption scenarios: without and with
+# registered done callbacks / failure cleanups, before and after a terminal
+# status that has not been announced yet
+LINE_PREFIXES = ([], ['q', 'r'], ['b', 'l'], ['b', 'l', 'q', 'r'],
+                 ['b', 'l', 'r', 'E'], ['b', 'l', 'r', 'S'])
+
+
+def systematic_line_cases(prefixes, shard, nshards):
+    """Two threads running one operation each from every start state, with
+    one forced preemption at EVERY executed source line of futures.py in
+    turn.  Yields (case, violation, info, fingerprint)."""
+    idx = 0
+    for prefix in prefixes:
+        for a in OPS:
+            for b in OPS:
+                idx += 1
+                if idx % nshards != shard:
+                    continue
+                base = {'kind': 'conc', 'threads': [[a], [b]],
+                        'prefix': list(prefix),
+                        'sched': {'mode': 'walk', 'choices': []}}
+                v0, info0 = run_concurrent(dict(base, count=True))
+                n = info0.get('nlines', 0)
+                for ln in [None] + list(range(1, n + 1)):
+                    case = dict(base, lines=[] if ln is None else [ln])
+                    viol, info = run_concurrent(case)
+                    yield case, viol, info, f'lp{"".join(prefix)}.{a}{b}{ln}'
 
 
 def _merges(lens):
